@@ -58,6 +58,97 @@ func placementCases(r *core.Run, base []feCase) []feCase {
 	return out
 }
 
+type textPert struct {
+	name, layout string
+	f            func(string) string
+}
+
+// textPerturbations: small text-level edits that turn a printed schema into a near-language text.
+func textPerturbations() []textPert {
+	first := func(old, neu string) func(string) string {
+		return func(t string) string { return strings.Replace(t, old, neu, 1) }
+	}
+	all := func(old, neu string) func(string) string {
+		return func(t string) string { return strings.ReplaceAll(t, old, neu) }
+	}
+	return []textPert{
+		{"eol-crcrlf", "crlf", all("\r\n", "\r\r\n")},
+		{"eol-crcrlf-after-comments", "crlf", func(t string) string {
+			lines := strings.Split(t, "\r\n")
+			for i, l := range lines {
+				if strings.Contains(l, "//") && i+1 < len(lines) {
+					lines[i] = l + "\r"
+				}
+			}
+			return strings.Join(lines, "\r\n")
+		}},
+		{"eol-lfcr", "canonical", all("\n", "\n\r")},
+		{"eol-cr-only", "canonical", all("\n", "\r")},
+		{"trailing-blanks", "canonical", all("\n", " \t\n")},
+		{"formfeed-vtab-blanks", "canonical", all("    ", "\f\v ")},
+		{"newline-after-readonly", "canonical", all("readonly ", "readonly\n")},
+		{"newline-after-keyword", "canonical", func(t string) string {
+			for _, k := range []string{"struct ", "message ", "enum ", "union ", "const "} {
+				t = strings.ReplaceAll(t, "\n"+k, "\n"+strings.TrimSpace(k)+"\n")
+				if strings.HasPrefix(t, k) {
+					t = strings.TrimSpace(k) + "\n" + t[len(k):]
+				}
+			}
+			return t
+		}},
+		{"newline-before-open-curly", "canonical", all(" {", "\n{")},
+		{"newline-before-semicolon", "canonical", all(";", "\n;")},
+		{"newline-after-arrow", "canonical", all("-> ", "->\n")},
+		{"newline-before-arrow", "canonical", all(" ->", "\n->")},
+		{"newline-after-equals", "canonical", all(" = ", " =\n")},
+		{"newline-inside-attribute", "canonical", all("](", "]\n(")},
+		{"newline-after-attribute-open", "canonical", all("[", "[\n")},
+		{"newline-in-map-type", "canonical", all(", ", ",\n")},
+		{"newline-before-array-suffix", "canonical", all("[]", "\n[]")},
+		{"semicolon-after-close-curly", "canonical", all("}\n", "};\n")},
+		{"double-semicolon", "canonical", all(";", ";;")},
+		{"first-comment-doubled-slashes", "canonical", first("//", "////")},
+		{"block-comment-unterminated-star", "canonical", first("*/", "**/")},
+	}
+}
+
+// perturbCases derives near-language texts from printed schemas by small text-level edits (line
+// ends doubled or replaced, a line break between a keyword/attribute and what follows it, ...).
+// Whether ReadFile accepts such a text is not demanded either way (C16/C17 only speak about
+// accepted texts); every text it does accept is in the domain, and File(x) is compared with
+// File(Format(x)) directly, as for the comment placements.
+func perturbCases(r *core.Run, base []feCase) []feCase {
+	perts := textPerturbations()
+	var out []feCase
+	nr := 0
+	for _, c := range base {
+		if c.place != nil {
+			continue
+		}
+		if strings.HasPrefix(c.name, "big/") {
+			continue
+		}
+		if strings.HasPrefix(c.name, "random") {
+			nr++
+			if !r.Thorough() && (nr/len(schema.Layouts))%4 != 0 {
+				continue
+			}
+		}
+		for _, p := range perts {
+			if c.layout.Name != p.layout {
+				continue
+			}
+			t := p.f(c.text)
+			if t == c.text {
+				continue
+			}
+			pl := schema.Placement{Text: t, At: "whole-text", Form: "perturbed:" + p.name}
+			out = append(out, feCase{name: c.name + "+" + p.name, layout: schema.Layout{Name: "perturbed"}, s: c.s, text: t, feat: c.feat, place: &pl})
+		}
+	}
+	return out
+}
+
 // frontCorpus builds the AST x layout corpus shared by C11, C16 and C17.
 func frontCorpus(r *core.Run, avoid map[string]bool) []feCase {
 	var named []schema.Named
@@ -251,6 +342,7 @@ func runFmt(prop string, args []string) {
 	}
 	cases := frontCorpus(r, nil)
 	cases = append(cases, placementCases(r, cases)...)
+	cases = append(cases, perturbCases(r, cases)...)
 	texts := make([][]byte, len(cases))
 	for i, c := range cases {
 		texts[i] = []byte(c.text)
@@ -316,7 +408,7 @@ func runFmt(prop string, args []string) {
 			loc := map[string]string{"layout": c.layout.Name}
 			if c.place != nil {
 				loc["at"], loc["form"] = c.place.At, c.place.Form
-				r.Hist("accepted comment placement: " + c.place.Form + " " + c.place.At)
+				r.Hist("accepted derived text: " + c.place.Form + " " + c.place.At)
 			}
 			for _, ft := range []string{"enum.typed", "enum.flags", "import", "type.suffix_array_2d", "type.array_2d"} {
 				if c.feat[ft] {
@@ -388,7 +480,7 @@ func runFmt(prop string, args []string) {
 		loc := map[string]string{"layout": c.layout.Name}
 		if c.place != nil {
 			loc["at"], loc["form"] = c.place.At, c.place.Form
-			r.Hist("accepted comment placement: " + c.place.Form + " " + c.place.At)
+			r.Hist("accepted derived text: " + c.place.Form + " " + c.place.At)
 		}
 		for _, ft := range []string{"enum.typed", "enum.flags", "import", "type.suffix_array_2d", "type.array_2d"} {
 			if c.feat[ft] {
